@@ -99,7 +99,7 @@ def run(tier):
         if f[2] not in CORE or f[4] != 'u32' or f[3] not in ('u32', 'u16'): continue
         if f[1] not in ('', '102'): continue
         ops = parse_args(f[5], 32)
-        if ops is None: continue
+        if ops is None or (f[2] == 'lea' and ops[1][0] != 'mem'): continue      # lea with a register source is #UD
         forms.append((h, f[2], int(f[0]), 16 if f[3] == 'u16' else 32, ops))
     lifted = run_impl('impl_lift.py', [x[0] for x in forms])
     nst = 6 if tier == 'quick' else 40
